@@ -10,6 +10,7 @@ package c15
 import (
 	"bytes"
 	"context"
+	"crypto/rand"
 	"crypto/tls"
 	"encoding/base64"
 	"encoding/json"
@@ -57,9 +58,18 @@ type scenario struct {
 	Clients []string `json:"clients"`
 	OptLen  int      `json:"option_len"`
 	Spare   int      `json:"option_spare_capacity"`
+	// RandSeam: the option list carries an application-supplied random source
+	// (it becomes the handshake's tls.Config.Rand); its reads between the end of
+	// the fetch / certificate function and the end of the handshake are
+	// scheduling points, so that interleavings *inside* the TLS layer's use of
+	// the configuration a handshake was given are explored
+	RandSeam bool `json:"rand_seam,omitempty"`
 }
 
 func (s scenario) String() string {
+	if s.RandSeam {
+		return fmt.Sprintf("clients=%v options(len=%d,spare=%d)+random-source-seam", s.Clients, s.OptLen, s.Spare)
+	}
 	return fmt.Sprintf("clients=%v options(len=%d,spare=%d)", s.Clients, s.OptLen, s.Spare)
 }
 
@@ -128,6 +138,32 @@ func (y *yieldingListener) Accept() (net.Conn, error) {
 		y.got[handlerID()] = ci
 	}
 	return c, err
+}
+
+// seamReader is the application's random source: crypto/rand, with a
+// scheduling point before a read made by a handler whose fetch / certificate
+// function has returned (the TLS layer drawing its randoms and key share).
+type seamReader struct {
+	mu    sync.Mutex
+	armed map[int]bool
+}
+
+func (s *seamReader) arm(on bool) {
+	s.mu.Lock()
+	s.armed[handlerID()] = on
+	s.mu.Unlock()
+}
+
+func (s *seamReader) Read(p []byte) (int, error) {
+	s.mu.Lock()
+	on := s.armed[handlerID()]
+	s.mu.Unlock()
+	// (one-byte reads are the standard library's randutil.MaybeReadByte, made
+	// or not made at random: they cannot be scheduling points of a replayable search)
+	if on && len(p) > 1 {
+		vrt.Yield("rand.read")
+	}
+	return rand.Read(p)
 }
 
 // handlerID identifies the calling handler: the managed thread id under the
@@ -254,6 +290,10 @@ func (w *world) body(sc scenario) (*obs, func(), *harness.MemStore) {
 		opts[i] = []nodeenrollment.Option{nodeenrollment.WithState(harness.Struct(map[string]any{"listener-wide": "state"})), nodeenrollment.WithLogger(hclog.NewNullLogger()),
 			nodeenrollment.WithMaximumServerLedActivationTokenLifetime(time.Hour), nodeenrollment.WithNotBeforeClockSkew(-5 * time.Minute)}[i%4]
 	}
+	seam := &seamReader{armed: map[int]bool{}}
+	if sc.RandSeam {
+		opts = append(opts, nodeenrollment.WithRandomReader(seam))
+	}
 	// unix socket: no ephemeral ports to exhaust over many thousand executions
 	sockSeq++
 	sockDir := filepath.Join(os.TempDir(), fmt.Sprintf("vf15-%d", os.Getpid()))
@@ -271,12 +311,14 @@ func (w *world) body(sc scenario) (*obs, func(), *harness.MemStore) {
 			vrt.Yield("fetch.enter")
 			r, err := registration.FetchNodeCredentials(ctx2, s, req, opt...)
 			vrt.Yield("fetch.exit")
+			seam.arm(true)
 			return r, err
 		},
 		GenerateServerCertificatesFunc: func(ctx2 context.Context, s nodeenrollment.Storage, req *types.GenerateServerCertificatesRequest, opt ...nodeenrollment.Option) (*types.GenerateServerCertificatesResponse, error) {
 			vrt.Yield("generate.enter")
 			r, err := nodetls.GenerateServerCertificates(ctx2, s, req, opt...)
 			vrt.Yield("generate.exit")
+			seam.arm(true)
 			return r, err
 		},
 	})
@@ -335,6 +377,7 @@ func (w *world) body(sc scenario) (*obs, func(), *harness.MemStore) {
 		vrt.Go(func() {
 
 			res := harness.AcceptOnce(ln)
+			seam.arm(false)
 			yl.mu.Lock()
 			ci, ok := yl.got[handlerID()]
 			yl.mu.Unlock()
@@ -417,7 +460,7 @@ func (w *world) solo(sc scenario) []string {
 	var out []string
 	for i := range sc.Clients {
 		// the same client, in the same slot, alone on the same listener configuration
-		single := scenario{Clients: make([]string, len(sc.Clients)), OptLen: sc.OptLen, Spare: sc.Spare}
+		single := scenario{Clients: make([]string, len(sc.Clients)), OptLen: sc.OptLen, Spare: sc.Spare, RandSeam: sc.RandSeam}
 		single.Clients[i] = sc.Clients[i]
 		var o *obs
 		var wait func()
@@ -476,6 +519,19 @@ func scenarios(c *engine.Ctx) []scenario {
 	// so exact-capacity input slices of every length 3..9 are shapes of their own
 	for l := 3; l <= 9; l++ {
 		shapes = append(shapes, [2]int{l, 0})
+	}
+	if !c.Thorough() {
+		// two overlapping polls of nodes that are not yet authorized (the quick
+		// pair filter below leaves this pair out; the thorough tier has it in every shape)
+		out = append(out, scenario{Clients: []string{kFetchUnknown, kFetchUnknown}, OptLen: 1, Spare: 1})
+	}
+	// with the random-source seam: a first poll runs to its end (whatever the
+	// listener keeps from one handshake for the next is in place), then two overlap
+	out = append(out, scenario{Clients: []string{kFetchUnknown, kFetchUnknown, kFetchUnknown}, OptLen: 1, Spare: 1, RandSeam: true},
+		scenario{Clients: []string{kAuth, kAuth}, OptLen: 1, Spare: 1, RandSeam: true})
+	if c.Thorough() {
+		out = append(out, scenario{Clients: []string{kAuth, kAuth, kAuth}, OptLen: 1, Spare: 1, RandSeam: true},
+			scenario{Clients: []string{kToken, kFetchUnknown, kFetchAuthorized}, OptLen: 1, Spare: 1, RandSeam: true})
 	}
 	for _, sh := range shapes {
 		for a := 0; a < len(kinds); a++ {
@@ -621,7 +677,7 @@ func init() {
 	engine.Register(&engine.CheckDef{
 		ID:    "C15",
 		Level: "exploration",
-		Rule: "one real InterceptingListener over real (unix-socket) connections; 2 (thorough also 3) handler threads each running one Accept for clients of kinds {fetch by an authorized node, fetch by an unknown node, token enrollment carrying its own state, authentication with its own client state and extra protocols, authentication by an unregistered key, a registered node's replayed request presented with a self-signed certificate}, for application option slices of length 0/1/2 with spare capacity 0/1/4 and of every length 3..9 with exact capacity; every schedule with at most 2 preemptions (thorough: 3 for pairs on three representative option shapes) over the scheduling points {every storage call, entry/exit of the fetch and certificate functions, base Accept}; oracle: each connection's (server result, reported state and protocols, client-side answer, created record's state) equals its outcome when handled alone; " +
+		Rule: "one real InterceptingListener over real (unix-socket) connections; 2 (thorough also 3) handler threads each running one Accept for clients of kinds {fetch by an authorized node, fetch by an unknown node, token enrollment carrying its own state, authentication with its own client state and extra protocols, authentication by an unregistered key, a registered node's replayed request presented with a self-signed certificate}, for application option slices of length 0/1/2 with spare capacity 0/1/4 and of every length 3..9 with exact capacity; every schedule with at most 2 preemptions (thorough: 3 for pairs on three representative option shapes) over the scheduling points {every storage call, entry/exit of the fetch and certificate functions, base Accept}; two scenarios (thorough four) in which the option list carries an application random source whose reads by the TLS layer after the fetch / certificate function returned are scheduling points too (three polls of unauthorized nodes, two authentications); oracle: each connection's (server result, reported state and protocols, client-side answer, created record's state) equals its outcome when handled alone; " +
 			"evaluations = schedules executed; distinct_nontrivial = scenarios explored",
 		Assumptions: []string{"code between two scheduling points of one handshake runs atomically w.r.t. the other handshakes (scheduling points are where shared state can be touched: storage and the shared option slice around the function calls); unsynchronised accesses inside those blocks are the -race companion's job", "clients are storage-independent (distinct keys and tokens), so the sequential outcome of each is order-independent"},
 		Shards:      func(c *engine.Ctx) int { return 16 },
